@@ -85,6 +85,8 @@ def angles(g):
         return (p[0] * np.pi / 2, p[1] * np.pi / 4, p[2] * np.pi / 4)
     if g['op'] == 'ry_rx':
         return (p[0] * np.pi / 2, p[1] * np.pi / 2)
+    if g['op'] == 'foracle':
+        return p[0] / 4                  # FractionalGroverOracle(theta): phase exp(-i pi theta)
     return p[0] * np.pi / 2
 
 
@@ -116,6 +118,14 @@ def add_gate(circ, g, requires_grad=None, args_override=None):
             circ.register_custom_gate('ry_rx', ryrx_class())
         a = angles(g)
         return circ.ry_rx(tg[0], a[0], a[1], **({} if requires_grad is None else dict(requires_grad=requires_grad)))
+    if op in ('oracle', 'foracle'):
+        import numqi
+        if not hasattr(circ, 'grover_oracle_'):
+            circ.register_custom_gate('grover_oracle_', numqi.query.GroverOracle)
+            circ.register_custom_gate('fractional_grover_oracle_', numqi.query.FractionalGroverOracle)
+        if op == 'oracle':
+            return circ.grover_oracle_(len(tg) // 2)
+        return circ.fractional_grover_oracle_(len(tg) // 2, theta=(angles(g) if args_override is None else args_override), requires_grad=(True if requires_grad is None else requires_grad))
     if op == 'single':
         return circ.single_qubit_gate(GENM[g['mat']], tg[0])
     if op == 'double':
